@@ -428,3 +428,39 @@ def desugar(fn: ast.FunctionDef) -> ast.FunctionDef:
     fn.body = desugar_list(fn.body)
     ast.fix_missing_locations(fn)
     return fn
+
+
+def inline_class_constants(fn: ast.FunctionDef, cls_node: ast.ClassDef, class_name: str) -> ast.FunctionDef:
+    """`cls.NAME` / `self.NAME` / `Class.NAME` where NAME is bound once at class level to a literal (str, number, tuple of
+    literals) and never re-bound through an attribute store anywhere in the class -> the literal"""
+    consts = {}
+    for st in cls_node.body:
+        tgt = val = None
+        if isinstance(st, ast.Assign) and len(st.targets) == 1 and isinstance(st.targets[0], ast.Name):
+            tgt, val = st.targets[0].id, st.value
+        elif isinstance(st, ast.AnnAssign) and isinstance(st.target, ast.Name) and st.value is not None:
+            tgt, val = st.target.id, st.value
+        if tgt is None:
+            continue
+        try:
+            ast.literal_eval(val)
+        except Exception:
+            continue
+        consts[tgt] = val if tgt not in consts else None
+    consts = {k: v for k, v in consts.items() if v is not None}
+    for n in ast.walk(cls_node):
+        if isinstance(n, ast.Attribute) and isinstance(n.ctx, (ast.Store, ast.Del)) and n.attr in consts:
+            consts.pop(n.attr, None)
+    if not consts:
+        return fn
+
+    class T(ast.NodeTransformer):
+        def visit_Attribute(self, node):
+            self.generic_visit(node)
+            if isinstance(node.ctx, ast.Load) and isinstance(node.value, ast.Name) and node.value.id in ('cls', 'self', class_name) and \
+                    node.attr in consts:
+                return ast.copy_location(copy.deepcopy(consts[node.attr]), node)
+            return node
+    fn = T().visit(copy.deepcopy(fn))
+    ast.fix_missing_locations(fn)
+    return fn
